@@ -57,11 +57,13 @@ def jobs(tier):
         {"name": "interp", "n": 1600 if q else 32000, "eop": "zero"},
         {"name": "dated", "n": 1200 if q else 24000, "eop": "zero"},
         {"name": "kepler", "n": 480 if q else 9600, "eop": "zero"},
+        {"name": "reuse", "n": 600 if q else 12000, "eop": "zero"},
     ]
 
 
 def requirements(tier):
     req = {f"order:{k}": 20 for k in range(2, 13)}
+    req.update({"reuse:order": 100, "reuse:method": 100, "reuse:form": 100, "reuse:frame": 100})
     req.update({
         "window-checked": 20000, "node-exact-lagrange": 5000, "node-linear": 1000, "poly-reproduced": 10000,
         "linear-reproduced": 2000, "refusal-outside": 3000, "labels-checked": 2000, "kepler-accuracy": 5000,
@@ -262,7 +264,109 @@ def run_case(ctx, job, idx, rng, st):
         return interp_case(ctx, job, idx, rng, st)
     if job["name"] == "dated":
         return dated_case(ctx, job, idx, rng, st)
+    if job["name"] == "reuse":
+        return reuse_case(ctx, job, idx, rng, st)
     return kepler_case(ctx, job, idx, rng, st)
+
+
+def reuse_case(ctx, job, idx, rng, st):
+    """History: an Ephem that has ALREADY interpolated once gets new settings (order, method) or a new form / frame;
+    what it returns afterwards must obey the property for the settings / form it then reports."""
+    import datetime as dt
+    from fractions import Fraction
+
+    from beyond.dates import Date
+    from beyond.orbits import StateVector, Ephem
+
+    n = rng.randint(13, 25)
+    # nodes at whole days from an integer MJD: every abscissa is exactly representable
+    mjd0 = rng.randint(50000, 58000)
+    k0 = rng.choice([2, 3, 5, 8])
+    k1 = rng.choice([k for k in (4, 6, 7, 9, 11, 12) if k != k0 and k <= n])
+    deg = k1 - 1  # reproduced by order k1, not by a lower order
+    coeffs = [[rng.uniform(-1, 1) * 7e6 / (n ** j) for j in range(deg + 1)] for _ in range(6)]
+
+    def poly(c, x):
+        acc = Fraction(0)
+        for j, cj in enumerate(c):
+            acc += Fraction(cj) * Fraction(x) ** j
+        return float(acc)
+
+    def values(x):
+        return [poly(c, x) for c in coeffs]
+
+    dates = [Date(mjd0 + i, 0.0, scale="TAI") for i in range(n)]
+    nodes = [StateVector(values(i), dates[i], "cartesian", "EME2000") for i in range(n)]
+    scen = ["order", "method", "form", "frame"][idx % 4]
+    w = {"scenario": scen, "n": n, "mjd0": mjd0, "order_first": k0, "order_then": k1}
+    ctx.case(dict(w, coeffs0=coeffs[0][:3]))
+    ctx.count("reuse:" + scen)
+    qs = [i + f for i in rng.sample(range(n - 1), 5) for f in (0.25, 0.5)]
+
+    def qdate(x):
+        return Date(mjd0 + int(x), (x - int(x)) * 86400.0, scale="TAI")
+
+    try:
+        eph = Ephem(nodes, method="lagrange" if scen != "method" else rng.choice(["lagrange", "linear"]), order=k0)
+        eph.interpolate(qdate(qs[0]))  # first use: the interpolator now exists
+        scale = max(abs(v) for i in range(n) for v in values(i)[:3])
+        if scen == "order":
+            eph.order = k1
+            ctx.expect(eph.order == k1, "C09/reuse-order-not-reported", w, "ephem.order does not report the value just set")
+            for x in qs:
+                got = np.asarray(eph.interpolate(qdate(x)), dtype=float)
+                err = float(np.max(np.abs(got - np.array(values(x)))))
+                # order k1 reproduces the degree k1-1 polynomial (bound as in the fresh-object job); a stale lower order misses by >> 1e-6 scale
+                ctx.resid("reuse:poly-after-order-change", err, 1e-7 * scale, key="C09/reuse-interpolator-ignores-new-order", witness=dict(w, x=x, err=err),
+                          msg=f"after a first use, order set to {k1}: degree-{deg} polynomial missed by {err:.3g} (scale {scale:.3g})")
+        elif scen == "method":
+            new = "linear" if eph.method == "lagrange" else "lagrange"
+            eph.method = new
+            if new == "lagrange":
+                eph.order = k1
+            ctx.expect(eph.method == new, "C09/reuse-method-not-reported", w, "ephem.method does not report the value just set")
+            for x in qs:
+                got = np.asarray(eph.interpolate(qdate(x)), dtype=float)
+                if new == "linear":
+                    i0 = int(x)
+                    a, b = np.array(values(i0)), np.array(values(i0 + 1))
+                    ref = a + (b - a) * (x - i0)
+                else:
+                    ref = np.array(values(x))
+                err = float(np.max(np.abs(got - ref)))
+                ctx.resid("reuse:after-method-change", err, 1e-7 * scale, key="C09/reuse-interpolator-ignores-new-method", witness=dict(w, x=x, err=err, method=new),
+                          msg=f"after a first use, method set to {new}: result off by {err:.3g} from what that method defines")
+        else:
+            # physical states so that form / frame conversions are defined
+            from ..oracles import elements as el
+
+            mu = 3.986004418e14
+            r0, v0 = el.kep2cart(rng.uniform(7e6, 9e6), rng.uniform(0.01, 0.2), rng.uniform(0.3, 2.5), 1.0, 2.0, 0.5, mu)
+            from ..oracles import kepler_uv
+
+            nodes = []
+            for i in range(n):
+                r, v = kepler_uv.propagate(r0, v0, 60.0 * i, mu)
+                nodes.append(StateVector(list(r) + list(v), Date(mjd0, 60.0 * i, scale="TAI"), "cartesian", "EME2000"))
+            eph = Ephem(nodes, order=8)
+            eph.interpolate(Date(mjd0, 90.0, scale="TAI"))
+            if scen == "form":
+                target = rng.choice(["spherical", "keplerian", "equinoctial", "cylindrical"])
+                eph.form = target
+            else:
+                target = rng.choice(["MOD", "TOD", "TEME", "G50"])
+                eph.frame = target
+            j = rng.randrange(1, n - 1)
+            node = eph[j]
+            got = eph.interpolate(node.date)
+            lab = (got.form.name, got.frame.name)
+            ctx.expect(lab == (eph.form.name, eph.frame.name), "C09/reuse-result-label-after-" + scen, dict(w, target=target, got=lab),
+                       f"after ephem.{scen} = {target}: interpolated point labelled {lab}")
+            d = float(np.max(np.abs(np.asarray(got, dtype=float) - np.asarray(node, dtype=float)) / (np.abs(np.asarray(node, dtype=float)) + 1e-9)))
+            ctx.resid("reuse:node-after-" + scen, d, 1e-9, key="C09/reuse-stale-coordinates-after-" + scen + "-change", witness=dict(w, target=target, node=j, rel=d),
+                      msg=f"after a first use and ephem.{scen} = {target}: interpolation at its own date differs from the node by {d:.3g} (relative)")
+    except Exception as exc:
+        ctx.violation("C09/reuse-raises", dict(w, exc=repr(exc)), f"re-used Ephem raised {exc!r}")
 
 
 def count_table(ctx, k, n, uniform):
